@@ -13,7 +13,7 @@ from vfw import scen_gen, scenario
 from vfw.core import Violation
 
 PROPERTY = "C13"
-SIZES = {"quick": 4800, "thorough": 60000}
+SIZES = {"quick": 8000, "thorough": 60000}
 RULE = (
     "Hypothesis draws a scenario from the shared corpus (simple grids with metrics, face-connected grids with scalar and vector "
     "calls, multi-axis grid ufuncs, signature pairs, COMODO/SGRID autoparsing, metric partitions, transform) written with "
@@ -203,6 +203,8 @@ def check(case, ctx):
         raise Violation("construction is accepted under one naming and refused under the other", canonical=base[:1], renamed=other[:1], renaming=ren)
     ok_calls = 0
     for i, (a, b) in enumerate(zip(base, other)):
+        if isinstance(a, dict) and isinstance(b, dict) and "raise" in a and "raise" in b:
+            continue   # refused under both namings: "the same calls are accepted" - the kind of exception is not part of the statement
         if a != b:
             call = sc["calls"][i] if len(base) == len(sc["calls"]) else {"fn": "construct"}
             raise Violation("renaming changed the outcome of a call", call_index=i, fn=call["fn"], canonical=brief(a), renamed=brief(b), renaming=ren,
